@@ -182,6 +182,16 @@ func (g *gen) expr(depth int) *Expr {
 		for i := 0; i < n; i++ {
 			e.Kids = append(e.Kids, g.expr(depth-1))
 		}
+		if p.WNot+p.WAnd > 0 && g.r.Intn(7) == 0 {
+			// a non-last alternative that is nothing but a lookahead whose operand consumes before it decides
+			k := KNot
+			if g.r.Intn(2) == 0 {
+				k = KAnd
+			}
+			at := g.r.Intn(len(e.Kids))
+			look := Un(k, Seq(g.leaf(), g.leaf()))
+			e.Kids = append(e.Kids[:at:at], append([]*Expr{look}, e.Kids[at:]...)...)
+		}
 		if g.r.Intn(100) < p.NilAltPct {
 			e.Kids = append(e.Kids, &Expr{K: KNil})
 		}
@@ -613,7 +623,12 @@ func ChoiceHeavy(r *rand.Rand) *Grammar {
 			case 8:
 				// a capture (or a bare group) whose body starts with a small inner choice of sequences with different
 				// first characters: the "first comparison may be skipped" flag travels through <...> and ( / )
-				inner := Alt(Seq(term(), term()), Seq(term(), Un(KQuery, term())))
+				first := term()
+				if r.Intn(2) == 0 { // often a small range: "is the first comparison really implied by the case keys?"
+					a := ch()
+					first = &Expr{K: KClass, Items: []Item{{a, clampHi(a, a+1+rune(r.Intn(3)))}}}
+				}
+				inner := Alt(Seq(first, term()), Seq(term(), Un(KQuery, term())))
 				if r.Intn(3) == 0 {
 					inner.Kids = append(inner.Kids, term())
 				}
@@ -628,6 +643,14 @@ func ChoiceHeavy(r *rand.Rand) *Grammar {
 			case 9:
 				head = []*Expr{Un(KPlus, term())}
 			case 10:
+				if r.Intn(2) == 0 {
+					// an alternative that is NOTHING but a lookahead over something that consumes before it decides
+					k := KNot
+					if r.Intn(2) == 0 {
+						k = KAnd
+					}
+					return Un(k, Seq(term(), term()))
+				}
 				head = []*Expr{Un(KAnd, term())} // pure lookahead: empty first set, non-consuming
 			case 11:
 				head = []*Expr{Un(KQuery, term()), term()} // nullable prefix then terminal: two possible first runes
